@@ -222,6 +222,8 @@ inductive CrecvCase (s : State) (c : Addr) (h : Hash) (st : Nat) (ds : List Desc
   | plain (nxt snd : Send) (hnext : nextInLine s c = some nxt) (hh : nxt.hash = h)
       (hchk : checkFrom s c h = .ok snd) (hst : st = 1 ∨ st = 2)
       (href : st = 2 → descShape ds = refundOf snd) (htc : c = tokenContract → st = 2)
+      (htm : c = tokenContract → ∀ out, tokenMethod s.toks snd (newTokOf ds) = some out →
+        out.descs.any (fun d => isEmbedded d.1) = true)
       (hds : applyDescs (recvCore s c h snd) c ds = .ok s')
   | token (nxt snd : Send) (out : TokOutcome) (hnext : nextInLine s c = some nxt) (hh : nxt.hash = h)
       (hchk : checkFrom s c h = .ok snd) (hc : c = tokenContract) (hst : st = 1)
@@ -261,12 +263,20 @@ theorem crecv_cases {s s' : State} {c : Addr} {h : Hash} {st : Nat} {ds : List D
               · cases hok
               · rename_i hcond
                 simp only [bne_iff_ne, ne_eq, Bool.or_eq_true, not_or, Decidable.not_not] at hcond
-                exact .plain nxt snd hnext hh hchk hst (fun _ => hcond.2) (fun _ => hcond.1) hok
+                rename_i heq
+                refine .plain nxt snd hnext hh hchk hst (fun _ => hcond.2) (fun _ => hcond.1) ?_ hok
+                intro _ out hout
+                have : (none : Option TokOutcome) = some out := heq.symm.trans hout
+                cases this
             · rename_i out hm
               split at hok
               · rename_i hcond
                 simp only [Bool.and_eq_true, beq_iff_eq] at hcond
-                exact .plain nxt snd hnext hh hchk hst (fun _ => hcond.1.2) (fun _ => hcond.1.1) hok
+                refine .plain nxt snd hnext hh hchk hst (fun _ => hcond.1.2) (fun _ => hcond.1.1) ?_ hok
+                intro _ out' hout
+                have : some out = some out' := hm.symm.trans hout
+                cases this
+                exact hcond.2
               · split at hok
                 · cases hok
                 · rename_i hcond
@@ -283,9 +293,11 @@ theorem crecv_cases {s s' : State} {c : Addr} {h : Hash} {st : Nat} {ds : List D
               split at hok
               · cases hok
               · rename_i hr
-                exact .plain nxt snd hnext hh hchk hst (fun _ => by simpa using hr) (fun h' => absurd h' hc) hok
+                exact .plain nxt snd hnext hh hchk hst (fun _ => by simpa using hr) (fun h' => absurd h' hc)
+                  (fun h' => absurd h' hc) hok
             · rename_i h2
               have h2 : ¬ st = 2 := by simpa using h2
-              exact .plain nxt snd hnext hh hchk hst (fun h' => absurd h' h2) (fun h' => absurd h' hc) hok
+              exact .plain nxt snd hnext hh hchk hst (fun h' => absurd h' h2) (fun h' => absurd h' hc)
+                (fun h' => absurd h' hc) hok
 
 end ZV.Ledger
